@@ -142,7 +142,18 @@ def value_for(ctx, target, pname, kind, sofar):
     fname = target.split(':')[1]
     if kind == 'Model' or (pname in ('model',)):
         return ctx.model
+    if kind == 'Graph' and pname == 'other':
+        ts = [t for t in ctx.graph.triples if r.random() < 0.5]
+        if r.random() < 0.6:
+            ts.append(ctx.triple())
+        if r.random() < 0.3:
+            ts = ts + ts[:1]
+        r.shuffle(ts)
+        epi = {t: [layout.Push('zz')] if r.random() < 0.2 else list(ctx.graph.epidata.get(t, [])) for t in ts if r.random() < 0.8}
+        return Graph(ts, top=r.choice([None, None, ctx.var()]), epidata=epi, metadata={'id': 'other'})
     if kind == 'Graph':
+        if pname == 'self' and r.random() < 0.3:
+            ctx.graph._top = r.choice([ctx.graph._top, None, ctx.var()])
         return ctx.graph
     if kind == 'Tree':
         return ctx.tree
@@ -192,6 +203,8 @@ def value_for(ctx, target, pname, kind, sofar):
         return r.choice([None, ctx.var(), ctx.var()])
     if pname == 'target' and kind == 'val':
         return r.choice([None, ctx.var(), r.choice(ATOMS)])
+    if pname == 'fmt':
+        return r.choice(['{prefix}{j}', '{prefix}{i}', 'a{i}', '{prefix}_{i}{j}', '{i}{prefix}', 'v{j}', 'x', '{prefix}'])
     if pname in ('target', 'constant_string'):
         pool = [a for a in ATOMS if a is None or isinstance(a, str)]
         return r.choice(pool)
